@@ -35,6 +35,17 @@ def gen_cfgs(ctx, n):
         it = ['f1'] * accum + ['s']
         cfg.ops = it + ['v1'] + ['f1'] * rng.randrange(1, accum + 1) + ['r'] + it + ['v1'] + it + ['v1']
         cfgs.append(cfg)
+    # directed: factors stored in float32 (the dtype the inverses / decompositions are computed in, so `.to(float32)` is the
+    # factor itself) with explicit inverses and with eigendecompositions, inverse updates on steps that are not factor-update
+    # steps: computing second-order data leaves the stored factor untouched
+    for method, world in (('inverse', 1), ('inverse', 2), ('eigen', 2)):
+        cfg = kfacsim.Config(rng, world=world, method=method, prediv=False)
+        cfg.fac32, cfg.inv32 = True, False
+        cfg.hyper['factor_update_steps'], cfg.hyper['inv_update_steps'] = 2, 1
+        cfg.hyper['damping'] = Fraction(1, 4)
+        it = ['f1'] * cfg.accum + ['s', 'v1']
+        cfg.ops = it * 4
+        cfgs.append(cfg)
     while len(cfgs) < n:
         cfg = kfacsim.Config(rng, world=rng.choice([1, 1, 2, 3, 4, 5, 8]))
         cfg.hyper['factor_decay'] = rng.choice([Fraction(1, 2), Fraction(3, 4), Fraction(15, 16), Fraction(1),
